@@ -345,7 +345,11 @@ pub fn check(tier: Tier) -> i32 {
             conds: vec![Cond::A],
             results: 0,
         };
-        let progs: Vec<Program> = enumerate(&gr).into_iter().map(|b| Program { results: 0, main: b, callee: vec![] }).collect();
+        let mut progs: Vec<Program> = enumerate(&gr).into_iter().map(|b| Program { results: 0, main: b, callee: vec![] }).collect();
+        // (both tiers) a br_table that names one label twice next to another branch to the same block: the
+        // flagged bodies that meet at that block's end then share a flag
+        progs.push(Program { results: 0, main: vec![Stmt::Block(vec![Stmt::BrIf(Cond::A, 0), Stmt::BrTable(Cond::A, vec![0, 1], 0)])], callee: vec![] });
+        progs.push(Program { results: 0, main: vec![Stmt::Block(vec![Stmt::Block(vec![Stmt::BrIf(Cond::A, 1), Stmt::BrTable(Cond::A, vec![1, 0], 1)])])], callee: vec![] });
         let modes = [SMode::SemanticAfter, SMode::BlockEntry, SMode::BlockExit, SMode::BlockAlt, SMode::FuncEntry, SMode::FuncExit];
         let mut plan_cases: Vec<(Program, Vec<Inj>)> = vec![];
         for prog in progs.iter() {
